@@ -13,10 +13,10 @@ from collections import OrderedDict
 
 from . import ops
 from .ops import PyExc, truth, to_sbool, zbool, compare, binop, unaryop, values_equal
-from .sym import (Sym, SBool, SInt, SReal, SDate, SStr, SOpaque, SList, SSet,
+from .sym import (SymKeyDict, Sym, SBool, SInt, SReal, SDate, SStr, SOpaque, SList, SSet,
                   SMap, SObj, StrS, ObjS, slen, TD, T, Unsupported, is_numeric,
                   num_z, to_real)
-from .extract import RepoFunction, RepoClass, ModuleRef, RepoModule, load_module
+from .extract import RepoFunction, RepoClass, ModuleRef, RepoModule, load_module, BuiltinRef
 from .path import PathEnd
 
 
@@ -67,6 +67,13 @@ class Builtin(object):
 
 def specfn(fn):
     return Builtin(fn)
+
+
+class SpecFunction(object):
+    """A function of a spec module (/verif/specs): interpreted in spec mode."""
+    def __init__(self, fn):
+        self.fn = fn
+        self.name = fn.name
 
 
 class PyType(object):
@@ -260,8 +267,11 @@ class Interp(object):
                 return True
             zs = [p for p in parts if p is not False]
             return z3.Or(*zs) if zs else False
+        def forall(pred):
+            zs = [zbool(pred(y)) for y in items]
+            return z3.And(*zs) if zs else z3.BoolVal(True)
         return SSet(has, z3.IntVal(len(items)) if not any(
-            isinstance(y, Sym) for y in items) else None)
+            isinstance(y, Sym) for y in items) else None, None, forall)
 
     def ite_value(self, cond, fthen, felse):
         if isinstance(cond, bool):
@@ -452,7 +462,10 @@ class Interp(object):
         mod = frame.module
         if mod is not None:
             try:
-                return mod.resolve(name)
+                v = mod.resolve(name)
+                if isinstance(v, BuiltinRef):
+                    return BUILTINS[v.name]
+                return v
             except KeyError:
                 pass
         if name in BUILTINS:
@@ -856,6 +869,11 @@ class Interp(object):
             if not self.branch(zbool(v.has(k))):
                 raise PyExc('KeyError', 'key not in map %s' % v.label)
             return v.get(k)
+        if isinstance(v, SymKeyDict):
+            for key, val in v.entries:
+                if self.branch(zbool(values_equal(self, k, key))):
+                    return val
+            raise PyExc('KeyError', 'key not in dict')
         if isinstance(v, SObj):
             gi = v.attrs.get('__getitem__')
             if gi is not None:
@@ -938,6 +956,8 @@ class Interp(object):
             return fn.fn(self, *args, **kwargs)
         if isinstance(fn, Closure):
             return self.call_closure(fn, args, kwargs)
+        if isinstance(fn, SpecFunction):
+            return self.run_spec_function(fn.fn, args, kwargs)
         if isinstance(fn, BoundMethod):
             t = fn.target
             if isinstance(t, Contract):
@@ -1059,6 +1079,52 @@ class Interp(object):
         finally:
             self.call_depth -= 1
             self.specmode = sm
+
+    # -- spec functions: statement blocks evaluated as merged expressions --
+    def run_spec_function(self, f, args, kwargs):
+        modfr = Frame(f.module)
+        bound = self.bind_args(f.node.args, args, kwargs, modfr, f.name)
+        fr = Frame(f.module, dict(bound), set(), fn=None)
+        sm, self.specmode = self.specmode, True
+        self.call_depth += 1
+        try:
+            r = self.eval_block_spec(f.body(), fr)
+        except PyExc as e:
+            raise Unsupported('spec function %s raised %s' % (f.name, e))
+        finally:
+            self.specmode = sm
+            self.call_depth -= 1
+        if r is _NORET:
+            return None
+        return r
+
+    def eval_block_spec(self, stmts, fr):
+        for idx, s in enumerate(stmts):
+            if isinstance(s, ast.Return):
+                return self.eval(s.value, fr) if s.value else None
+            if isinstance(s, ast.If):
+                c = truth(self, self.eval(s.test, fr))
+                if not isinstance(c, bool):
+                    cs = z3.simplify(c)
+                    c = True if z3.is_true(cs) else False if z3.is_false(cs) else cs
+                if isinstance(c, bool):
+                    r = self.eval_block_spec(s.body if c else s.orelse, fr)
+                    if r is not _NORET:
+                        return r
+                    continue
+                rest = stmts[idx + 1:]
+                f1 = Frame(fr.module, dict(fr.locals), set(), parent=fr.parent)
+                f2 = Frame(fr.module, dict(fr.locals), set(), parent=fr.parent)
+                v1 = self.eval_block_spec(list(s.body) + rest, f1)
+                v2 = self.eval_block_spec(list(s.orelse) + rest, f2)
+                if v1 is _NORET or v2 is _NORET:
+                    raise Unsupported('spec function: branch without return')
+                return self.ite_value(c, lambda: v1, lambda: v2)
+            if isinstance(s, (ast.Assign, ast.Expr, ast.Assert, ast.Pass, ast.AugAssign)):
+                self.exec(s, fr)
+                continue
+            raise Unsupported('spec function statement %s' % type(s).__name__)
+        return _NORET
 
     def call_closure(self, c, args, kwargs):
         node = c.node
@@ -1229,6 +1295,13 @@ class Interp(object):
             raise Unsupported('assignment target %s' % type(t).__name__)
 
     def setitem(self, obj, k, v, target_expr, fr):
+        if isinstance(obj, SymKeyDict):
+            for e in obj.entries:
+                if self.branch(zbool(values_equal(self, k, e[0]))):
+                    e[1] = v
+                    return
+            obj.entries.append([k, v])
+            return
         if isinstance(obj, dict):
             if isinstance(k, Sym):
                 raise Unsupported('symbolic key store into concrete dict')
@@ -1555,6 +1628,7 @@ class Interp(object):
         self.exec_block(s.orelse, fr)
 
 
+_NORET = object()
 _expr_cache = {}
 
 
